@@ -24,8 +24,10 @@ IsEv(e) == l <= Len(Rec) /\ Rec[l].ev = e /\ l' = l + 1
 
 Written(e) == [entries |-> <<e.rec>>, err |-> FALSE]
 
+\* (ReadBackX: where the reader of ZoneFile.tla abstains on the record type
+\* -- CAA -- the line reader of Presentation.tla with the field readers decides)
 ReaderOk(e) ==
-  LET o == ReadBack(e.text, e.origin, {}) IN
+  LET o == ReadBackX(e.text, e.origin, {}) IN
   \/ o = Unmodelled \/ o = e.res
   \/ \E dv \in (SUBSET (OpenDevs \cap AllDevs)) \ {{}} :
         LET d == ReadBack(e.text, e.origin, dv) IN d = Unmodelled \/ d = e.res
@@ -35,8 +37,12 @@ RECURSIVE LabelsHave(_, _, _)
 LabelsHave(w, i, set) ==      \* some label octet of the wire name w (from index i) is in set
   IF i > Len(w) \/ w[i] = 0 THEN FALSE
   ELSE (\E k \in (i + 1)..(i + w[i]) : k <= Len(w) /\ w[k] \in set) \/ LabelsHave(w, i + 1 + w[i], set)
+RECURSIVE NameEnd(_, _)
+NameEnd(w, i) == IF i > Len(w) THEN Len(w) ELSE IF w[i] = 0 THEN i ELSE NameEnd(w, i + 1 + w[i])
 NamesOf(rec) == <<rec.owner>> \o (IF rec.rtype \in NameTypes THEN <<rec.rdata>>
-                                  ELSE IF rec.rtype = 15 THEN <<Drop(rec.rdata, 2)>> ELSE <<>>)
+                                  ELSE IF rec.rtype = 15 THEN <<Drop(rec.rdata, 2)>>
+                                  ELSE IF rec.rtype = 47 THEN <<SubSeq(rec.rdata, 1, NameEnd(rec.rdata, 1))>>   \* NSEC: next name
+                                  ELSE <<>>)
 Triggered(e) ==
   LET ns == NamesOf(e.rec) IN
   (IF \E i \in 1..Len(ns) : LabelsHave(ns[i], 1, LabelEscapeIdeal \ LabelEscapeCode)
@@ -44,7 +50,7 @@ Triggered(e) ==
   \cup (IF e.kind = "display" /\ \E i \in 1..Len(ns) : ns[i] = <<0>> THEN {"D_display_root_dot"} ELSE {})
 
 RoundTripOk(e) ==
-  LET o == ReadBack(e.text, e.origin, {}) IN
+  LET o == ReadBackX(e.text, e.origin, {}) IN
   \/ (e.res = Written(e) /\ e.eq)
   \/ /\ o # Unmodelled /\ o # Written(e)          \* the text does not denote the record
      /\ Triggered(e) \cap OpenDevs # {}            \* ... and the record is one a writer deviation applies to
